@@ -416,6 +416,26 @@ def oracle_cbcheck(case, R):
         f = io.StringIO()
         out = cb.cbcheck(f, Mcb, Kcb, bseto, bref_call, uset, **kw)
         text = f.getvalue()
+    # ---- reorder=False with a b-set that is NOT ascending: documented ValueError.  The same model handed over
+    # with two boundary grids exchanged in `bseto` AND in the USET table (so that table row i still describes matrix
+    # position bseto[i]) is either refused, or - should an implementation come to accept it - answered like the
+    # ascending call: never accepted and paired with the wrong geometry
+    if not reorder and not fault and nbg >= 3 and uset is not None and case.get("try_unordered", True):
+        ga, gb = (case["seed"] % nbg), ((case["seed"] // 7) % nbg)
+        if ga != gb:
+            prm = np.arange(nb)
+            prm[6 * ga:6 * ga + 6], prm[6 * gb:6 * gb + 6] = np.arange(6 * gb, 6 * gb + 6), np.arange(6 * ga, 6 * ga + 6)
+            try:
+                ob = cb.cbcheck(io.StringIO(), Mcb, Kcb, bseto[prm], bref_call, uset.iloc[prm], **kw)
+            except ValueError:
+                R.label("unordered_noreorder:refused")
+            else:
+                R.label("unordered_noreorder:accepted")
+                for nm_ in ("rbg", "rbs", "rbe"):
+                    a_, b_ = np.asarray(getattr(out, nm_)), np.asarray(getattr(ob, nm_))
+                    e = float(np.abs(a_ - b_).max()) / max(float(np.abs(a_).max()), 1e-300) if a_.shape == b_.shape else np.inf
+                    R.check(e <= 1e-6, "unordered_bseto_accepted_without_reordering_and_answered_wrongly",
+                            f"{nm_}: differs from the ascending call by {e:.3g} (grids {ga} and {gb} exchanged)")
     # ---- returned b-set, matrices, uset
     if reorder:
         bs = np.arange(nb)
